@@ -29,6 +29,11 @@ const CONFIG_FILE: &str = "agdb_server.yaml";
 
 #[tokio::main]
 async fn main() -> ServerResult {
+    #[cfg(agdb_verif)]
+    if std::env::args().nth(1).as_deref() == Some("--verif-exec") {
+        return cluster::verif_exec().await;
+    }
+
     let config = config::new(CONFIG_FILE)?;
     logger::init(config.log_level);
 
